@@ -77,6 +77,10 @@ func newRealCase() (*RealCase, error) {
 	if err := os.MkdirAll(rc.Root, 0o755); err != nil {
 		return nil, err
 	}
+	// independent of the process umask
+	for _, d := range []string{tmp, tmp + "/w", tmp + "/w/w", tmp + "/w/w/w"} {
+		_ = os.Chmod(d, 0o755)
+	}
 	return rc, nil
 }
 
@@ -102,6 +106,7 @@ func (rc *RealCase) Build(sub string, entries []Entry) error {
 	if err := os.MkdirAll(root, 0o755); err != nil {
 		return err
 	}
+	_ = os.Chmod(root, 0o755)
 	for _, e := range es {
 		p := root + e.Path
 		switch e.Kind {
